@@ -4,5 +4,5 @@ cd "$(dirname "$0")/.."
 TIER=${1:-quick}
 IDS=$(python3 -c "import json;print(' '.join(c['property_id'] for c in json.load(open('MANIFEST.json'))['checks']))")
 mkdir -p .cache/runall
-echo $IDS | tr ' ' '\n' | xargs -P 4 -I{} sh -c "timeout 3000 ./check {} --tier $TIER > .cache/runall/{}.log 2>&1; echo {} exit \$?"
+echo $IDS | tr ' ' '\n' | xargs -P ${RUNALL_P:-4} -I{} sh -c "timeout 3000 ./check {} --tier $TIER > .cache/runall/{}.log 2>&1; echo {} exit \$?"
 grep -l "VIOLATION" .cache/runall/*.log
